@@ -13,15 +13,13 @@ Proof style: unfold to `toNat`/`Int` arithmetic (`bv_ints`), split the finitely 
 -/
 import ChibiVerif.Model.X86
 import ChibiVerif.Model.C01Codegen
+import ChibiVerif.Model.C01Expr
 import ChibiVerif.Spec.IntSpec
 
 namespace ChibiVerif.C01
 open ChibiVerif.X86 ChibiVerif.Asm ChibiVerif.Spec.IntSpec ChibiVerif.Gen.CommonType ChibiVerif.C01Codegen
 
-/-- the chibicc type descriptor of a C11 integer type -/
-def descr : ITy → TyD
-  | .bool => ty_bool | .i8 => ty_char | .i16 => ty_short | .i32 => ty_int | .i64 => ty_long
-  | .u8 => ty_uchar | .u16 => ty_ushort | .u32 => ty_uint | .u64 => ty_ulong
+-- `descr` (the chibicc type descriptor of a C11 integer type) and `castSeq` are defined in Model/C01Expr.lean
 
 /-- the C11 integer type a chibicc descriptor denotes (an enumerated type is compatible with `int`);
     `none` for non-integer descriptors and for descriptors that denote no type (e.g. a 3-byte int) -/
@@ -67,9 +65,6 @@ macro "unfold_spec" : tactic => `(tactic|
   simp [Represents, ITy.inRange, ITy.min, ITy.max, ITy.signed, ITy.bits, convert, wrap, fit, b2i, toBits, ofBits] at *)
 
 /-! ## conversions -/
-
-/-- the instructions `cast(from, to)` prints (cast table cell, or the `_Bool` sequence) -/
-def castSeq (f t : ITy) : List Ins := (cast (descr f) (descr t)).flatMap Line.instrs
 
 /-- the distinct conversion sequences -/
 inductive CastKind where
